@@ -166,7 +166,16 @@ def stepStore (env : Env) (op : Json) (defaultRank : Nat) : Env × Json :=
      | some rows =>
        let db' := rows.foldl (fun db r => if db.lexicons.any (fun x => x.rowid == r.rowid) then removeLexicon db r.rowid else db) env.db
        ({ env with db := db' }, jObj [("ok", jBool true)]))
-  | "ili" => ({ env with db := addIli env.db (decIliRows op) }, jObj [("ok", jBool true)])
+  | "ili" =>
+    let rows := if has op "lines" then parseIli (strList ((op.getObjVal? "lines").toOption.getD Json.null)) else decIliRows op
+    ({ env with db := addIli env.db rows }, jObj [("ok", jBool true)])
+  | "ilis" =>
+    let w : Wordnet := { lexids := env.db.lexicons.map (·.rowid), expids := [], defaultMode := true }
+    (env, jObj [("all", jArr ((findIlis env.db none none w.lexids).map fun d => jArr [jOpt d.id, jStr d.status, jOpt d.definition])),
+                ("by_id", jObj ((strList ((op.getObjVal? "ids").toOption.getD Json.null)).map fun i =>
+                  (i, match (findIlis env.db (some i) none w.lexids).head? with
+                      | some d => jArr [jOpt d.id, jStr d.status, jOpt d.definition]
+                      | none => jStr "error")))])
   | "obs" => (env, obsAll env)
   | "battery" =>
     (env, match mkWordnet env.db (optStr op "lexicon") (optStr op "lang") (optStr op "expand")
